@@ -710,6 +710,9 @@ func (e *env) fnTimeCol(n int) {
 func main() {
 	c := vh.Start()
 	r := vh.NewRand(c.Seed)
+	if v, ok := c.Facts["bom_stripped_before_tokenising"].(bool); ok {
+		bomFirst = v
+	}
 	e := newEnv(c, r, 1000000)
 	defer e.close()
 	scale := 1
